@@ -1,6 +1,11 @@
 package main
 
-import "math"
+import (
+	"math"
+	"runtime"
+	"slices"
+	"strings"
+)
 
 // histWorld: the history worlds of the state-machine properties (C01-C07, C09, C10, C15).
 // Several scripted clients are interleaved by the seeded scheduler into one history; the real
@@ -138,11 +143,18 @@ func (w *histWorld) Gen(seed uint64, tier string) *Plan {
 			op = Op{ID: id, N: "Clear"}
 		case w.loads && r.P(1, 12):
 			op = genArrayLoad(r, id, s)
+		case !w.count && (cfg.Skip > 1 && r.P(1, 8) || r.P(1, 30)):
+			// a read-only call as part of the history (result not judged here: C18 judges results). Its purpose
+			// is what it may leave behind - a position hint, a memo - for the mutations that follow
+			op = s.GenRead(r, id)
+			op.N = "R:" + op.N
 		default:
 			op = s.GenOp(r, id, clients[ci])
 		}
 		op.C = ci
-		s.ModelApply(op)
+		if !strings.HasPrefix(op.N, "R:") {
+			s.ModelApply(op)
+		}
 		p.Ops = append(p.Ops, op)
 	}
 	if w.c15 {
@@ -154,8 +166,20 @@ func (w *histWorld) Gen(seed uint64, tier string) *Plan {
 // genArrayLoad produces a FromJSON op for the C06 world: a JSON array of elements of the run's
 // domain in arbitrary (non-heap) order, sometimes with ties and duplicates.
 func genArrayLoad(r *Rng, id int, s Subject) Op {
-	n := []int{0, 1, 2, 3, 5, 8, 13}[r.Intn(7)]
+	n := []int{0, 1, 2, 3, 5, 8, 13, 15, 21, 31}[r.Intn(10)]
 	idx := genIdxs(r, n, s.Config().Dom)
+	// the arrangement of the document: arbitrary, sorted either way, or sorted with one or two pairs swapped
+	// (nearly ordered inputs are what a "skip the work if already ordered" shortcut gets wrong)
+	if shape := r.Intn(5); shape > 0 {
+		s.(interface{ sortIdx([]int) }).sortIdx(idx)
+		if shape == 2 {
+			slices.Reverse(idx)
+		}
+		for k := 0; shape >= 3 && k < shape-2 && n >= 2; k++ {
+			i, j := r.Intn(n), r.Intn(n)
+			idx[i], idx[j] = idx[j], idx[i]
+		}
+	}
 	var doc []byte
 	switch x := s.(type) {
 	case *heapSubj[int]:
@@ -206,10 +230,28 @@ func (w *histWorld) Exec(p *Plan, st *RunStats) *Violation {
 	byObs := ""
 	if !w.count && p.Cfg.Dom <= 4096 && p.Cfg.MapSeed%3 == 0 {
 		by = s.Fresh()
+		if usesCmp(p.Cfg.Kind) && familyOf(p.Cfg.Kind) != "list" && p.Cfg.MapSeed%2 == 0 {
+			// ... ordered by another comparator than the container under test
+			cb := p.Cfg
+			cb.Ctor = ""
+			if cb.Cmp == "rev" {
+				cb.Cmp = "nat"
+			} else {
+				cb.Cmp = "rev"
+			}
+			if cb.Kind == "treebidimap" {
+				if cb.VCmp == "rev" {
+					cb.VCmp = "nat"
+				} else {
+					cb.VCmp = "rev"
+				}
+			}
+			by = makeSubject(cb, false)
+		}
 		inert := NewOracle(w.prop)
 		br := NewRng(p.Cfg.MapSeed ^ 0x5eed)
 		bc := &Client{Role: "mixed"}
-		for i := 0; i < 6; i++ {
+		for i := 0; i < 10; i++ {
 			bop := by.GenOp(br, 900000+i, bc)
 			if bop.N == "Clear" {
 				continue
@@ -217,6 +259,12 @@ func (w *histWorld) Exec(p *Plan, st *RunStats) *Violation {
 			safely(inert, bop, func() { inert.V = nil; by.Step(bop, inert) })
 		}
 		byObs = by.ObsJSON()
+		if p.Cfg.MapSeed%4 == 0 {
+			// two collections empty every sync.Pool: whatever the package pools is from here on created by
+			// the container under test, at a point fixed by the plan (not by the collector's own timing)
+			runtime.GC()
+			runtime.GC()
+		}
 	}
 	skipped := false
 	for _, op := range p.Ops {
@@ -224,6 +272,19 @@ func (w *histWorld) Exec(p *Plan, st *RunStats) *Violation {
 		op := op
 		skipped = p.Cfg.Skip > 1 && derive(op.ID, 77, p.Cfg.Skip) != 0
 		o.Sparse = p.Cfg.Mode == "big" && op.ID%16 != 0 || skipped
+		if strings.HasPrefix(op.N, "R:") {
+			rop := op
+			rop.N = op.N[2:]
+			safely(o, op, func() { o.cur = op; s.DoRead(rop) })
+			if fresh != nil && !o.Failed() {
+				safely(o, op, func() { fresh.DoRead(rop) })
+			}
+			st.Ops++
+			if o.Failed() {
+				break
+			}
+			continue
+		}
 		safely(o, op, func() { s.Step(op, o) })
 		st.Ops++
 		if traceOn {
@@ -296,6 +357,20 @@ func (w *histWorld) Exec(p *Plan, st *RunStats) *Violation {
 		// the default constructor is generic over every ordered type: other instantiations of the same kind
 		probe := Op{ID: -1, N: "NewOverOtherOrderedTypes"}
 		safely(o, probe, func() { o.cur = probe; typedCtorProbe(o, w.prop, p.Cfg.Kind, int(p.Cfg.MapSeed>>33)) })
+	}
+	if !o.Failed() && !w.count && usesCmp(p.Cfg.Kind) && o.Active[w.prop] && p.Cfg.MapSeed%5 == 1 && (w.prop == "C01" || w.prop == "C02" || w.prop == "C04" || w.prop == "C10") {
+		// the library's own comparator (utils.TimeComparator) with the kind under test
+		probe := Op{ID: -1, N: "TimeKeysWithTheLibraryComparator"}
+		safely(o, probe, func() { o.cur = probe; timeKeysProbe(o, w.prop, p.Cfg.Kind, int(p.Cfg.MapSeed>>35)) })
+	}
+	if !o.Failed() && o.Active[w.prop] && p.Cfg.MapSeed%7 == 3 && (w.prop == "C03" || w.prop == "C04" || w.prop == "C05") {
+		probe := Op{ID: -1, N: "ZeroSizeElements"}
+		safely(o, probe, func() { o.cur = probe; zeroSizeProbe(o, w.prop, p.Cfg.Kind) })
+	}
+	if !o.Failed() && !w.count && usesCmp(p.Cfg.Kind) && familyOf(p.Cfg.Kind) != "list" && o.Active[w.prop] && p.Cfg.MapSeed%5 == 2 {
+		// the comparator is only ever asked about stored elements (pointer elements ordered by a field)
+		probe := Op{ID: -1, N: "PointerElementsWithDereferencingComparator"}
+		safely(o, probe, func() { o.cur = probe; pointerElementsProbe(o, w.prop, p.Cfg.Kind, int(p.Cfg.MapSeed>>36)) })
 	}
 	if !o.Failed() {
 		if h, ok := s.(interface{ FinalDrain(*Oracle) }); ok && o.Active["C06"] {
